@@ -105,25 +105,25 @@ def applyDesc (dreg : DReg) (dinv : DInv) (k : DKey) (args : List Text) : Text :
   | none => defaultDesc k args
 
 mutual
-def describe (regs : Regs) (dreg : DReg) (dinv : DInv) : AST → Text
+def describe (dreg : DReg) (dinv : DInv) : AST → Text
   | .lit l => litText l
-  | .unary op rhs => applyDesc dreg dinv (.unary op) [op, describe regs dreg dinv rhs]
-  | .binary op l r => applyDesc dreg dinv (.binary op) [op, describe regs dreg dinv l, describe regs dreg dinv r]
-  | .postfix l op => applyDesc dreg dinv (.postfix op) [describe regs dreg dinv l, op]
+  | .unary op rhs => applyDesc dreg dinv (.unary op) [op, describe dreg dinv rhs]
+  | .binary op l r => applyDesc dreg dinv (.binary op) [op, describe dreg dinv l, describe dreg dinv r]
+  | .postfix l op => applyDesc dreg dinv (.postfix op) [describe dreg dinv l, op]
   | .ternary c a b => applyDesc dreg dinv .ternary
-      [describe regs dreg dinv c, describe regs dreg dinv a, describe regs dreg dinv b]
+      [describe dreg dinv c, describe dreg dinv a, describe dreg dinv b]
   | .ref n => applyDesc dreg dinv (.reference n) [n]
-  | .call n args => applyDesc dreg dinv (.function n) (n :: describeList regs dreg dinv args)
-  | .list xs => applyDesc dreg dinv .list (describeList regs dreg dinv xs)
-  | .map kvs => applyDesc dreg dinv .map (describeMap regs dreg dinv kvs)
-  | .stmt xs => applyDesc dreg dinv .chain (describeList regs dreg dinv xs)
+  | .call n args => applyDesc dreg dinv (.function n) (n :: describeList dreg dinv args)
+  | .list xs => applyDesc dreg dinv .list (describeList dreg dinv xs)
+  | .map kvs => applyDesc dreg dinv .map (describeMap dreg dinv kvs)
+  | .stmt xs => applyDesc dreg dinv .chain (describeList dreg dinv xs)
   | .none => []
-def describeList (regs : Regs) (dreg : DReg) (dinv : DInv) : List AST → List Text
+def describeList (dreg : DReg) (dinv : DInv) : List AST → List Text
   | [] => []
-  | a :: as => describe regs dreg dinv a :: describeList regs dreg dinv as
-def describeMap (regs : Regs) (dreg : DReg) (dinv : DInv) : List (AST × AST) → List Text
+  | a :: as => describe dreg dinv a :: describeList dreg dinv as
+def describeMap (dreg : DReg) (dinv : DInv) : List (AST × AST) → List Text
   | [] => []
-  | (k, v) :: r => describe regs dreg dinv k :: describe regs dreg dinv v :: describeMap regs dreg dinv r
+  | (k, v) :: r => describe dreg dinv k :: describe dreg dinv v :: describeMap dreg dinv r
 end
 
 end EE
